@@ -136,6 +136,8 @@ class SourceJoin(MVPN):
         cursor += sourceiplen
 
         # Validate group IP length
+        if cursor >= len(packed):
+            raise Notify(3, 5, f'Invalid C-Multicast Route: the source length ({sourceiplen * 8} bits) does not fit its {datalen} bytes.')
         groupiplen = int(packed[cursor] / 8)
         if groupiplen != IPv4.BYTES and groupiplen != IPv6.BYTES:
             raise Notify(
@@ -143,6 +145,8 @@ class SourceJoin(MVPN):
                 5,
                 f'Invalid C-Multicast Route length ({groupiplen * 8} bits). Expected 32 bits (IPv4) or 128 bits (IPv6).',
             )
+        if cursor + 1 + groupiplen != len(packed):
+            raise Notify(3, 5, f'Invalid C-Multicast Route: the source and group lengths do not add up to its {datalen} bytes.')
 
         return cls(packed, afi)
 
